@@ -95,8 +95,9 @@ def direct_request_case(rng):
     if pre:
         h = [op for op in h if op[0] != "set"]
     B = rng.choice([64, 256, 8192])
-    return conngen.req_new_case(B, 1, flat(recs), h, C07.io_script(rng, 200, "r"), C07.io_script(rng, 60, "w"), rng.choice([0, 1]), pre), \
-        ["reads", "direct-request"] + (["preselected"] if pre else [])
+    leak = 1 if rng.random() < 0.2 else 0          # the application keeps a StreamWriter alive across close(): close must refuse
+    return conngen.req_new_case(B, 1, flat(recs), h, C07.io_script(rng, 200, "r"), C07.io_script(rng, 60, "w"), rng.choice([0, 1]), pre, leak), \
+        ["reads", "direct-request"] + (["preselected"] if pre else []) + (["leaked-writer"] if leak else [])
 
 
 def gen_cases(rng, tier):
@@ -113,7 +114,7 @@ def nontrivial(line, tags):
 
 
 def min_classes(tier):
-    return {"mixed": 400, "switch": 400, "zero-read": 200, "gate-probe": 30, "direct-request": 200, "preselected": 40}
+    return {"mixed": 400, "switch": 400, "zero-read": 200, "gate-probe": 30, "direct-request": 200, "preselected": 40, "leaked-writer": 20}
 
 
 def oracle_direct(line, impl_line):
